@@ -436,8 +436,12 @@ func c12Plan(t *rapid.T, sc *c12Scenario, pool []*c12Operator, r *c12Receiver) *
 	if genKinds == nil {
 		genKinds = r.ownKinds
 	}
-	p := &c12Planned{}
-	p.msg = c12GenMsg(t, sc, genKinds, len(r.kindNames))
+	return c12PlanMsg(t, sc, pool, r, c12GenMsg(t, sc, genKinds, len(r.kindNames)))
+}
+
+// c12PlanMsg builds the given message and evaluates the admission model on it.
+func c12PlanMsg(t *rapid.T, sc *c12Scenario, pool []*c12Operator, r *c12Receiver, gm c12Msg) *c12Planned {
+	p := &c12Planned{msg: gm}
 	p.payload, p.typ, p.extraOK, p.extraTag = r.build(t, p.msg, pool[p.msg.op].key)
 	for _, k := range r.ownKinds {
 		if k == p.msg.kind {
